@@ -10,7 +10,7 @@ from ..canon import chash, canon, to_plain
 
 ID = "C12"
 LEVEL = "exploration"
-RULE = ("histories of 5-60 calls executed in one long-lived process: diff_notebooks, merge_notebooks (several strategies), generic diff, "
+RULE = ("histories of 5-60 calls executed in one long-lived process: diff_notebooks, merge_notebooks (several strategies), generic diff, generic decide_merge with caller-supplied strategy tables (incl. the documented 'fail' strategy that raises inside the line-wise string merge), "
         "and ignore-configuration calls (set_notebook_diff_targets, set_notebook_diff_ignores, flags parsed by the real nbdiff "
         "ConfigBackedParser + process_diff_flags, reset_notebook_differ) over a pool of notebooks whose metadata / application/json "
         "values at one path are a list of lists in one notebook and a list of objects (or an object) in another, same key being list in "
@@ -62,6 +62,12 @@ def run_op(op):
             return ["ok", canon(blank_markers(to_plain([m, dec])))]
         if kind == "diff":
             return ["ok", canon(to_plain(nbd.diff(op["a"], op["b"])))]
+        if kind == "decide_merge":
+            # generic public API with a caller-supplied strategy table; with the documented "fail" strategy on a
+            # string path a real line conflict raises RuntimeError *inside* the line-wise string merge
+            from nbdime.utils import Strategies
+            dec = nbd.decide_merge(op["base"], op["local"], op["remote"], Strategies(op["strategies"]))
+            return ["ok", canon(to_plain(dec))]
         if kind == "targets":
             dn.set_notebook_diff_targets(**op["kw"])
             return ["cfg"]
@@ -197,6 +203,19 @@ def make_history(gen, maxlen):
             if not isinstance(a, (dict, list, str)):
                 continue
             ops.append({"op": "diff", "a": a, "b": G.rand_edit(r, a)})
+        elif c < 0.74:
+            lines = ["this is line number %d of a text\n" % j for j in range(r.randrange(2, 6))]
+            j = r.randrange(len(lines))
+            ll, rl = list(lines), list(lines)
+            if r.random() < 0.5:      # similar rewrites of one line (patch/patch) ...
+                ll[j] = lines[j].rstrip("\n") + " local %d\n" % r.randrange(9)
+                rl[j] = lines[j].rstrip("\n") + " remote %d\n" % r.randrange(9)
+            else:                      # ... or dissimilar replacements (replace/replace)
+                ll[j] = "local %d\n" % r.randrange(9)
+                rl[j] = "remote %d\n" % r.randrange(9)
+            ops.append({"op": "decide_merge", "base": {"s": "".join(lines), "k": 1}, "local": {"s": "".join(ll), "k": 1},
+                        "remote": {"s": "".join(rl), "k": r.choice([1, 2])},
+                        "strategies": r.choice([{"/s": "fail", "/s/*": "fail"}, {"/s": "fail", "/s/*": "fail"}, {}, {"/s": "use-local"}, {"/s": "clear"}])})
         elif c < 0.78:
             ops.append({"op": "targets", "kw": {k: r.random() < 0.6 for k in ("sources", "outputs", "attachments", "metadata", "identifier", "details")}})
         elif c < 0.85:
@@ -290,9 +309,9 @@ def judge_history(col, nbd, ops, tmp, states, only_last=False):
         # non-trivial: an earlier op touched a shared path shape
         paths = set()
         for key in ("A", "B", "base", "local", "remote"):
-            if key in op:
+            if key in op and isinstance(op[key], dict) and "cells" in op[key]:
                 paths |= nb_paths(op[key])
-        if i > 0 and (paths & seen_paths or op["op"] == "diff"):
+        if i > 0 and (paths & seen_paths or op["op"] in ("diff", "decide_merge")):
             col.nt(chash(ops[: i + 1]))
         seen_paths |= paths
         if len(col.samples) < 2 and i >= 3:
